@@ -153,7 +153,11 @@ def part_cf(rep, tier, seed, layouts):
     cases = []
     st = {"states": 0, "transitions": 0}
     # the full alphabet with one label name; and {O, C, G, L, P} with two label names (equal names in different scopes)
-    for cfg in ("MC_MachineCF_%s.cfg" % tier, "MC_MachineCF_labels_%s.cfg" % tier):
+    cfgs = ["MC_MachineCF_%s.cfg" % tier, "MC_MachineCF_labels_%s.cfg" % tier]
+    if tier == "thorough":
+        # bodies of 8 items over the loop alphabet {O, IO, C, IG, L, LP, P, INC}
+        cfgs.append("MC_MachineCF_len8_thorough.cfg")
+    for cfg in cfgs:
         r = common.tlc("MC_MachineCF", cfg, workers=6, timeout=2400, heap="8g", tag="C01-cf-%d" % os.getpid())
         if not r.ok:
             raise common.ToolError("MC_MachineCF/%s: invariant %s violated (the specification itself is inconsistent)" % (cfg, r.violated))
@@ -237,6 +241,7 @@ def part_ptr(rep, tier, seed, layouts):
         (cfg, r.distinct, len(cases), len(done), len(changed), len(cases) - len(done), r.wall))
     if not changed or len(done) == len(cases):
         raise common.ToolError("MC_MachinePtr is vacuous: no program changes a caller cell / none is refused")
+    layouts = min(layouts, 2)       # one compilation per program and layout: the family is not packed
     checked = check_ptr_cases(rep, cases, layouts, seed, "C01-ptr")
     log("[replay] caller/callee family: %d programs x %d layouts, %d comparisons" % (len(cases), layouts, checked))
     return cases, {"states": r.distinct, "transitions": r.generated, "changed": len(changed), "done": len(done)}
